@@ -94,7 +94,9 @@ def run(ctx):
     fixed = [c for c in allcfgs if boundary(c)]
     rest = [c for c in allcfgs if not boundary(c)]
     rng.shuffle(rest)
-    chosen = fixed + rest[: (6 if quick else 150)]
+    # the same boundary configurations on a source that numbers from 0 (Neo4j does): a committed cursor of 0 is a position
+    zero = [dict(c, zero_ids=True) for c in fixed if c["shard"] == 1 or len(c["graphs"]) == 2]
+    chosen = fixed + zero[: (3 if quick else len(zero))] + rest[: (6 if quick else 150)]
     for i, c in enumerate(chosen):
         c["codec"] = CODECS[(i + ctx.seed) % 3]
     ctx.cov["configurations_total"] = len(allcfgs)
@@ -148,7 +150,7 @@ def run(ctx):
     validate(ctx, trace, chosen)
     ctx.cov["exhaustive"] = False
     ctx.cov["rule"] = ("TLC enumerates %d configurations (<=2 graphs, <=3 nodes, <=3 relationships, shard/batch 1..%d); %d explored (boundary "
-                       "ones always, the rest seed-sampled), codec rotating.  Per configuration: crash (SIGKILL) at every step of the first "
+                       "ones always - also on a source whose first node and relationship have database id 0 -, the rest seed-sampled), codec rotating.  Per configuration: crash (SIGKILL) at every step of the first "
                        "run, then resume; a sample (thorough: all pairs for the boundary configurations) of second crashes during the resume; "
                        "a database read error at every fetch; refusal scenarios (changed shard size, one more source node, a stray file).  "
                        "non-trivial = the interrupted run had already published at least one fragment or written a manifest temp"
